@@ -39,7 +39,13 @@ var cur *Sched
 // Install makes s the active scheduler (nil uninstalls).
 func Install(s *Sched) { cur = s }
 
-func New() *Sched { return &Sched{parked: make(chan Event), once: map[*sync.Once]int{}} }
+func New() *Sched {
+	heldMu.Lock()
+	held = map[any]int{}
+	heldMu.Unlock()
+
+	return &Sched{parked: make(chan Event), once: map[*sync.Once]int{}}
+}
 
 // bufLen overrides the subscriber buffer length in the instrumented build (0 = keep /repo's constant).
 var bufLen int
@@ -129,6 +135,55 @@ func Yield(label string) {
 	}
 }
 
+// lock state of the instrumented mutexes (key: the mutex; -1 = write-locked, n > 0 = n readers), kept so that
+// releasing a lock that is not held is a panic of the offending thread — which the schedule reports — and not
+// the runtime's fatal error.
+var (
+	heldMu sync.Mutex
+	held   = map[any]int{}
+)
+
+func mark(m any, d int) {
+	heldMu.Lock()
+	if d == -1 {
+		held[m] = -1
+	} else {
+		held[m] += d
+	}
+	heldMu.Unlock()
+}
+
+// Unlock releases a write lock taken through Lock.
+func Unlock(m interface{ Unlock() }) {
+	heldMu.Lock()
+	st, known := held[m]
+	if known && st == -1 {
+		delete(held, m)
+	}
+	heldMu.Unlock()
+	if !known || st != -1 {
+		panic("sync: Unlock of unlocked mutex")
+	}
+	m.Unlock()
+}
+
+// RUnlock releases a read lock taken through RLock.
+func RUnlock(m interface{ RUnlock() }) {
+	heldMu.Lock()
+	st := held[m]
+	if st > 0 {
+		held[m] = st - 1
+		if st == 1 {
+			delete(held, m)
+		}
+	}
+	heldMu.Unlock()
+	if st <= 0 {
+		panic("sync: RUnlock of unlocked RWMutex")
+	}
+	m.RUnlock()
+}
+
 // Lock acquires m cooperatively: it never blocks the OS thread while other threads are parked.
 func Lock(m interface {
 	tryLocker
@@ -140,6 +195,7 @@ func Lock(m interface {
 			f(label)
 		}
 		m.Lock()
+		mark(m, -1)
 
 		return
 	}
@@ -147,6 +203,7 @@ func Lock(m interface {
 	for !m.TryLock() {
 		s.yield(label, true)
 	}
+	mark(m, -1)
 }
 
 func RLock(m interface {
@@ -159,6 +216,7 @@ func RLock(m interface {
 			f(label)
 		}
 		m.RLock()
+		mark(m, 1)
 
 		return
 	}
@@ -166,6 +224,7 @@ func RLock(m interface {
 	for !m.TryRLock() {
 		s.yield(label, true)
 	}
+	mark(m, 1)
 }
 
 // Send performs a channel send cooperatively: `try` is a non-blocking attempt, `block` the plain send. A send
